@@ -183,7 +183,8 @@ func IsDomainName(s string) (labels int, ok bool) {
 	// XXX: The logic in this function was copied from packDomainName and
 	// should be kept in sync with that function.
 
-	const lenmsg = 256
+	// The root label takes the last of the 255 octets a name may have.
+	const lenmsg = maxDomainNameWireOctets - 1
 
 	if len(s) == 0 { // Ok, for instance when dealing with update RR without any rdata.
 		return 0, false
